@@ -226,20 +226,46 @@ func zzH_C03_commit() { zzC03CommitRun(true) }
 //verif:replace (*$M/event.TypeMux).AsyncPost zzC03Post
 func zzH_C03_commit_plain() { zzC03CommitRun(false) }
 
-func zzC03CommitRun(cert bool) {
+func zzC03CommitRun(cert bool) { zzC03CommitHist(cert, false) }
+
+// zzH_C03_commit_ri: the same history with one real updateContext to the next round index
+// of the same round at a symbolic position: quorum flags of the previous round index must
+// not let a commit through whose own round index has no quorum.
+//
+//verif:replace (*$M/consensus/ucon.Voter).vote zzC03Vote
+//verif:replace (*$M/consensus/ucon.Voter).setMarkedBlock zzC03Mark
+//verif:replace $M/consensus/ucon.OverThreshold zzC03OverInt
+//verif:replace (*$M/event.TypeMux).AsyncPost zzC03Post
+//verif:noop (*$M/consensus/ucon.VoteDB).UpdateContext
+func zzH_C03_commit_ri() { zzC03CommitHist(true, true) }
+
+func zzC03CommitHist(cert, ctxChange bool) {
 	zzC03Log, zzC03Commits = nil, nil
 	n := zzverif.Bound("commitMessages", 4, 4)
+	if ctxChange {
+		n = zzverif.Bound("commitMessages (with a round-index change)", 3, 4)
+	}
 	round := big.NewInt(5)
 	blk := types.NewBlockWithHeader(&types.Header{Number: big.NewInt(5)})
-	v := &Voter{round: round, roundIndex: 1, voteOver: map[common.Hash]*VoteStatus{}}
+	v := &Voter{round: round, roundIndex: 1, voteOver: map[common.Hash]*VoteStatus{}, votesWrappers: NewVotesWrapperList()}
 	v.shouldCert = cert
 	v.blockInCacheFn = func(h, p common.Hash) *types.Block { return blk }
-	w := NewVotesWrapper()
-	w.clearVotesInfo(round, 1)
-	v.votesMgr = w
+	v.votesMgr = v.votesWrappers.NewWrapper(round, 1)
 	tPos, tCert := uint64(zzverif.U16("threshold.precommit")), uint64(zzverif.U16("threshold.certificate"))
 	zzverif.Assume(tPos >= 10 && tPos <= 4096 && tCert >= 10 && tCert <= 4096)
+	changeAt := -1
+	if ctxChange {
+		changeAt = 1 + zzverif.Choose("roundIndexChangesBeforeMessage", n-1)
+	}
+	// equivocation seen in the current round index, per step (the known finding needs one)
+	eqPre, eqCert := false, false
+	seen := 0
 	for i := 0; i < n; i++ {
+		if i == changeAt {
+			zzverif.Reach("round-index-changed")
+			v.updateContext(ContextChangeEvent{Round: round, RoundIndex: 2, Step: UConStepPrecommit, Certificate: cert})
+			eqPre, eqCert = false, false
+		}
 		vt := Precommit
 		th := tPos
 		if zzverif.Bool("isCertificateVote") {
@@ -251,24 +277,34 @@ func zzC03CommitRun(cert bool) {
 		zzverif.Assume(addr[0] < 3 && hash[0] >= 1 && hash[0] <= 2)
 		sv := &SingleVote{Votes: uint32(zzverif.U16("votes"))}
 		// the counted part of processVoteMsg for a verified vote of the current round and index
-		res, _ := w.addrVoteInfo(round, 1, vt, addr, hash, params.KindChamber)
+		w := v.votesMgr
+		res, _ := w.addrVoteInfo(round, v.roundIndex, vt, addr, hash, params.KindChamber)
 		if res == addrNotVoted {
-			if add, total := w.newVote(round, 1, vt, addr, common.Hash{}, hash, sv, params.KindChamber); add {
+			if add, total := w.newVote(round, v.roundIndex, vt, addr, common.Hash{}, hash, sv, params.KindChamber); add {
 				v.judgeVoteCount(vt, total, th, hash, common.Hash{}, params.KindChamber)
 			}
+		} else if res == addrDifferentVote {
+			if vt == Precommit {
+				eqPre = true
+			} else {
+				eqCert = true
+			}
+		}
+		// commits posted by this message are judged against the state right now
+		for ; seen < len(zzC03Commits); seen++ {
+			ce := zzC03Commits[seen]
+			zzverif.Reach("committed")
+			pre := zzC03Weight(ce.ChamberPrecommits)
+			// known finding: in a certificate round a quorum is latched when it is first reached; a
+			// contributor that equivocates afterwards is removed from the set, and the later commit
+			// packs the reduced set
+			zzverif.AssertKF(pre >= tPos*685/1000, "the precommits attached to a commit reach the precommit quorum", "C03-commit-packs-reduced-votes", v.shouldCert && eqPre)
+			if v.shouldCert {
+				zzverif.AssertKF(zzC03Weight(ce.ChamberCerts) >= tCert*585/1000, "the certificate votes attached to a commit reach the certificate quorum", "C03-commit-packs-reduced-votes", eqCert)
+			}
+			zzverif.Assert(ce.RoundIndex == v.roundIndex, "a commit is announced for the current round index")
 		}
 	}
 	zzverif.Reach("processed")
-	for _, ce := range zzC03Commits {
-		zzverif.Reach("committed")
-		pre := zzC03Weight(ce.ChamberPrecommits)
-		// known finding: in a certificate round the precommit quorum is latched when it is first reached;
-		// a precommitter that equivocates afterwards is removed from the set, and the later commit packs
-		// the reduced set
-		zzverif.AssertKF(pre >= tPos*685/1000, "the precommits attached to a commit reach the precommit quorum", "C03-commit-packs-reduced-votes", v.shouldCert)
-		if v.shouldCert {
-			zzverif.AssertKF(zzC03Weight(ce.ChamberCerts) >= tCert*585/1000, "the certificate votes attached to a commit reach the certificate quorum", "C03-commit-packs-reduced-votes", true)
-		}
-	}
 	zzverif.Reach("end")
 }
